@@ -8,9 +8,22 @@ pub struct SaphyrParser<'a> { _p: std::marker::PhantomData<&'a ()> }
 
 // fn-pointer and Rc<RefCell<dyn FnMut>> report callbacks, opaque
 #[verifier::external_body]
+#[derive(Clone, Copy)]
 pub struct ReportFn { _p: () }
 #[verifier::external_body]
 pub struct ReportCb { _p: () }
+
+// user callbacks: arbitrary code, but they only receive the report (by reference / by value)
+#[verifier::external_body]
+fn report_fn_call(f: ReportFn, report: &BudgetReport) { unimplemented!() }
+#[verifier::external_body]
+fn report_cb_call(f: &ReportCb, report: BudgetReport) { unimplemented!() }
+
+// derived Clone of Option<BudgetBreach>
+#[verifier::external_body]
+fn clone_breach(b: &Option<BudgetBreach>) -> (r: Option<BudgetBreach>)
+    ensures r == *b,
+{ unimplemented!() }
 
 // Rc<RefCell<Option<io::Error>>> shared with the char iterator.  `content()` is what a read of the
 // cell at the beginning of the current call yields (interior mutability is outside Verus: the model
@@ -47,3 +60,33 @@ fn vec_resize_none<'a>(v: &mut Vec<Option<Box<[Ev<'a>]>>>, n: usize)
 fn vec_into_boxed<'a>(v: Vec<Ev<'a>>) -> (r: Box<[Ev<'a>]>)
     ensures r@ == v@,
 { v.into_boxed_slice() }
+
+// saphyr-parser's ScanError, opaque
+#[verifier::external_body]
+pub struct ScanError { _p: () }
+
+impl<'a> SaphyrParser<'a> {
+    /// ghost view: the raw items the parser will still yield (finite: the parser terminates)
+    pub uninterp spec fn pending(&self) -> Seq<Result<(Event<'a>, ParserSpan), ScanError>>;
+
+    // SaphyrParser::next dispatches to saphyr_parser::Parser::next for either input kind
+    #[verifier::external_body]
+    fn next(&mut self) -> (r: Option<Result<(Event<'a>, ParserSpan), ScanError>>)
+        ensures match r {
+            Some(x) => old(self).pending().len() > 0 && x == old(self).pending()[0] && final(self).pending() == old(self).pending().skip(1),
+            None => old(self).pending().len() == 0 && final(self).pending() == old(self).pending(),
+        },
+    { unimplemented!() }
+}
+
+// Error::from_scan_error (message formatting); only the kind matters here
+#[verifier::external_body]
+fn error_from_scan_error(e: ScanError) -> (r: Error)
+    ensures !(r is IOError) && !(r is Budget),
+{ unimplemented!() }
+
+// `Cow::Borrowed(&**value)`: a borrowed view of the same text
+#[verifier::external_body]
+fn cowstr_borrow<'b, 'a>(v: &'b CowStr<'a>) -> (r: CowStr<'b>)
+    ensures r@ == v@, r.byte_len() == v.byte_len(),
+{ CowStr { inner: std::borrow::Cow::Borrowed(v.inner.as_ref()) } }
